@@ -149,7 +149,74 @@ def latH : Handler := fun j => do
     ("covers", Json.arr covers.toArray),
     ("paths", Json.arr paths.toArray)])
 
+/-! ### large contexts (64/65/129 objects): no brute force over the object subsets
+
+  The oracles are the ones the theorems provide: `binarize_same_closed_sets` (the binarised table closes every
+  non-empty object set as the many-valued context does — checked point-wise on the given object lists) and
+  `mv_lattice_exact` (under `BottomOK`, which `bottomOK_characterised` gives for every context with an interval
+  column, the model's `close_by_one` returns exactly the closed object sets). -/
+
+def hasIntervalCol (K : MVCtx) : Bool := K.cols.any fun c => match c with
+  | .interval _ => true
+  | _ => false
+
+/-- `{"op":"C14.binBig","K":..,"rows":[[..]],"w":W,"subsets":[[..],..]}` → model binarisation, declared / produced
+    width, and for every given object list the closure in the implementation's binarised table next to the
+    closure in the many-valued context (spec) -/
+def binBigH : Handler := fun j => do
+  let K ← getK j
+  let t ← getTable j
+  let subs ← (← arr (← j.getObjVal? "subsets")).mapM natList
+  let modelJ := match K.binarize with
+    | .ok Kb => Json.mkObj [("rows", jBoolss Kb.table.data), ("w", Json.num (JsonNumber.fromNat Kb.table.width)),
+        ("names", jStrs Kb.objNames)]
+    | .error e => jErr e
+  let cls := subs.map fun A => Json.mkObj [
+    ("table", jNats (sortNats (Spec.closure t A))),
+    ("mv", jNats (sortNats (K.clSpec A)))]
+  pure (Json.mkObj [
+    ("model", modelJ),
+    ("wf", jBool (decide K.WF)),
+    ("nbin", Json.num (JsonNumber.fromNat K.nBinAttrs)),
+    ("nproduced", Json.num (JsonNumber.fromNat K.binAttrExtents.length)),
+    ("closures", Json.arr cls.toArray),
+    ("tableBottom", jNats (sortNats (Spec.closure t []))),
+    ("extBottom", jNats K.extBottom),
+    ("bottomOK", jBool (hasIntervalCol K))])
+
+/-- `{"op":"C14.latBig","K":..,"thrs":[0,1000]}` → the reply of `C14.lat` without any enumeration of object subsets:
+    `bottomOK` is the sufficient condition "has an interval column"; `closed` are the extents the model's first path
+    returns (= the closed object sets by `mv_lattice_exact` when `bottomOK` and `wf`), `selfClosed` says each of
+    them is its own closure (spec) or the bottom extent -/
+def latBigH : Handler := fun j => do
+  let K ← getK j
+  let thrs ← getNatList j "thrs"
+  let runs := thrs.map fun thr =>
+    let fuel := K.closeByOneFuel thr
+    (thr, K.closeByOne thr fuel, K.latticeConcepts thr fuel)
+  let closed := match runs.head? with
+    | some (_, _, .ok cs) => sortLists (cs.map (·.extent))
+    | _ => []
+  let covers := (List.range closed.length).flatMap fun i =>
+    (Spec.lowerCovers closed i).map fun c => jNats [i, c]
+  let paths := runs.map fun (thr, cbo, res) => Json.mkObj [
+    ("thr", Json.num (JsonNumber.fromNat thr)),
+    ("path", Json.str (pathName (K.choosePath thr))),
+    ("cbo", jExc (fun cs => Json.arr (cs.map jPC).toArray) cbo),
+    ("res", jExc (fun cs => Json.arr (cs.map jPC).toArray) res)]
+  pure (Json.mkObj [
+    ("bottomOK", jBool (hasIntervalCol K)),
+    ("wf", jBool (decide K.WF)),
+    ("clEmpty", jExc jNats (K.cl [])),
+    ("extBottom", jNats K.extBottom),
+    ("closed", jNatss closed),
+    ("selfClosed", jBool (closed.all fun e => K.clSpec e == e || e == K.extBottom)),
+    ("closedInt", Json.arr (closed.map fun e => jDesc (K.intentionI e)).toArray),
+    ("covers", Json.arr covers.toArray),
+    ("paths", Json.arr paths.toArray)])
+
 def handlers : List (String × Handler) :=
-  [("C14.ext", extH), ("C14.cl", clH), ("C14.bin", binH), ("C14.lat", latH)]
+  [("C14.ext", extH), ("C14.cl", clH), ("C14.bin", binH), ("C14.lat", latH),
+   ("C14.binBig", binBigH), ("C14.latBig", latBigH)]
 
 end Fca.Drv.C14
